@@ -86,10 +86,6 @@ fn split_at(range: Range<usize>, at: usize) -> (res: (Range<usize>, Range<usize>
 /*@*/ spec fn v_ok(v: &V, or: Range<usize>, nr: Range<usize>) -> bool {
 /*@*/     v.wf() && v.offset >= max_d_spec(or.end - or.start, nr.end - nr.start)
 /*@*/ }
-/*@*/ spec fn cq_inv<D: DiffHook>(d: D, d0: D, t0: Seq<Ev>, s: Seq<Ev>, rel: Rel, rs0: St, o0: int, n0: int, oc: int, nc: int) -> bool {
-/*@*/     seg_rel(rel, s, o0, n0, oc, nc) && d.trace() == t0 + s && !d.failed() && d.relies() == d0.relies() && d.rely_rel() == d0.rely_rel()
-/*@*/     && (d0.relies() ==> d.rely_st() == run_rel(d0.rely_rel(), rs0, s))
-/*@*/ }
 /*@*/ #[verifier::external_body]  // assumed contract (Myers' middle-snake theorem); bounded Kani stand-in, see DESIGN.md
 fn find_middle_snake<Old, New>(
     old: &Old,
@@ -252,14 +248,14 @@ where
     /*@*/ let ghost d0 = *d; let ghost t0 = d.trace(); let ghost rs0 = d.rely_st(); let ghost r1 = d.rely_rel();
     /*@*/ let ghost mut s: Seq<Ev> = Seq::empty();
     /*@*/ let ghost mut oc: int = o0; let ghost mut nc: int = n0;
-    /*@*/ proof { lemma_seg_empty(rel, o0, n0); lemma_run_empty(r1, rs0); assert(t0 + s =~= t0); assert(cq_inv(*d, d0, t0, s, rel, rs0, o0, n0, oc, nc)); }
+    /*@*/ proof { lemma_seg_empty(rel, o0, n0); lemma_run_empty(r1, rs0); assert(t0 + s =~= t0); assert(alg_inv(*d, d0, t0, s, rel, rs0, o0, n0, oc, nc)); }
     // Check for common prefix
     let common_prefix_len = common_prefix_len(old, old_range.clone(), new, new_range.clone());
     if common_prefix_len > 0 {
         /*@*/ proof { let e = Ev::Equal(old_range.start, new_range.start, common_prefix_len); if d0.relies() { pre_call(rel, r1, s, e, o0, n0, oc, nc, rs0); } }
         d.equal(old_range.start, new_range.start, common_prefix_len)?;
         /*@*/ proof { let e = Ev::Equal(old_range.start, new_range.start, common_prefix_len); post_call(rel, r1, s, e, o0, n0, oc, nc, rs0); assert((t0 + s).push(e) =~= t0 + s.push(e)); s = s.push(e); oc = oc + common_prefix_len; nc = nc + common_prefix_len;
-        /*@*/     assert(cq_inv(*d, d0, t0, s, rel, rs0, o0, n0, oc, nc)); }
+        /*@*/     assert(alg_inv(*d, d0, t0, s, rel, rs0, o0, n0, oc, nc)); }
     }
     old_range.start += common_prefix_len;
     new_range.start += common_prefix_len;
@@ -279,12 +275,12 @@ where
         /*@*/ proof { let e = Ev::Delete(old_range.start, (old_range.end - old_range.start) as usize, new_range.start); if d0.relies() { pre_call(rel, r1, s, e, o0, n0, oc, nc, rs0); } }
         d.delete(old_range.start, old_range.len(), new_range.start)?;
         /*@*/ proof { let e = Ev::Delete(old_range.start, (old_range.end - old_range.start) as usize, new_range.start); post_call(rel, r1, s, e, o0, n0, oc, nc, rs0); assert((t0 + s).push(e) =~= t0 + s.push(e)); s = s.push(e); oc = oc + (old_range.end - old_range.start);
-        /*@*/     assert(cq_inv(*d, d0, t0, s, rel, rs0, o0, n0, oc, nc)); }
+        /*@*/     assert(alg_inv(*d, d0, t0, s, rel, rs0, o0, n0, oc, nc)); }
     } else if is_empty_range(&old_range) {
         /*@*/ proof { let e = Ev::Insert(old_range.start, new_range.start, (new_range.end - new_range.start) as usize); if d0.relies() { pre_call(rel, r1, s, e, o0, n0, oc, nc, rs0); } }
         d.insert(old_range.start, new_range.start, new_range.len())?;
         /*@*/ proof { let e = Ev::Insert(old_range.start, new_range.start, (new_range.end - new_range.start) as usize); post_call(rel, r1, s, e, o0, n0, oc, nc, rs0); assert((t0 + s).push(e) =~= t0 + s.push(e)); s = s.push(e); nc = nc + (new_range.end - new_range.start);
-        /*@*/     assert(cq_inv(*d, d0, t0, s, rel, rs0, o0, n0, oc, nc)); }
+        /*@*/     assert(alg_inv(*d, d0, t0, s, rel, rs0, o0, n0, oc, nc)); }
     } else if let Some((x_start, y_start)) = find_middle_snake(
         old,
         old_range.clone(),
@@ -306,7 +302,7 @@ where
         /*@*/     lemma_run_concat(r1, rs0, s, sa);
         /*@*/     assert((t0 + s) + sa + Seq::<Ev>::empty() =~= t0 + (s + sa));
         /*@*/     s = s + sa; oc = old_a.end as int; nc = new_a.end as int;
-        /*@*/     assert(cq_inv(*d, d0, t0, s, rel, rs0, o0, n0, oc, nc));
+        /*@*/     assert(alg_inv(*d, d0, t0, s, rel, rs0, o0, n0, oc, nc));
         /*@*/ }
         /*@*/ let ghost tm = d.trace(); let ghost rm = d.rely_st(); let ghost dm = *d;
         /*@*/ proof { if d0.relies() { lemma_seg_any(rel, r1, s, o0, n0, oc, nc, rs0); lemma_mono(r1, rs0, s); } }
@@ -318,7 +314,7 @@ where
         /*@*/     lemma_run_concat(r1, rs0, s, sa);
         /*@*/     assert((t0 + s) + sa + Seq::<Ev>::empty() =~= t0 + (s + sa));
         /*@*/     s = s + sa; oc = old_b.end as int; nc = new_b.end as int;
-        /*@*/     assert(cq_inv(*d, d0, t0, s, rel, rs0, o0, n0, oc, nc));
+        /*@*/     assert(alg_inv(*d, d0, t0, s, rel, rs0, o0, n0, oc, nc));
         /*@*/ }
     } else {
         /*@*/ proof { let e = Ev::Delete(old_range.start, (old_range.end - old_range.start) as usize, new_range.start); if d0.relies() { pre_call(rel, r1, s, e, o0, n0, oc, nc, rs0); } }
@@ -328,7 +324,7 @@ where
             new_range.start,
         )?;
         /*@*/ proof { let e = Ev::Delete(old_range.start, (old_range.end - old_range.start) as usize, new_range.start); post_call(rel, r1, s, e, o0, n0, oc, nc, rs0); assert((t0 + s).push(e) =~= t0 + s.push(e)); s = s.push(e); oc = oc + (old_range.end - old_range.start);
-        /*@*/     assert(cq_inv(*d, d0, t0, s, rel, rs0, o0, n0, oc, nc)); }
+        /*@*/     assert(alg_inv(*d, d0, t0, s, rel, rs0, o0, n0, oc, nc)); }
         /*@*/ proof { let e = Ev::Insert(old_range.start, new_range.start, (new_range.end - new_range.start) as usize); if d0.relies() { pre_call(rel, r1, s, e, o0, n0, oc, nc, rs0); } }
         d.insert(
             old_range.start,
@@ -336,18 +332,18 @@ where
             new_range.end - new_range.start,
         )?;
         /*@*/ proof { let e = Ev::Insert(old_range.start, new_range.start, (new_range.end - new_range.start) as usize); post_call(rel, r1, s, e, o0, n0, oc, nc, rs0); assert((t0 + s).push(e) =~= t0 + s.push(e)); s = s.push(e); nc = nc + (new_range.end - new_range.start);
-        /*@*/     assert(cq_inv(*d, d0, t0, s, rel, rs0, o0, n0, oc, nc)); }
+        /*@*/     assert(alg_inv(*d, d0, t0, s, rel, rs0, o0, n0, oc, nc)); }
     }
 
     if common_suffix_len > 0 {
         /*@*/ proof { let e = Ev::Equal(common_suffix.0, common_suffix.1, common_suffix_len); if d0.relies() { pre_call(rel, r1, s, e, o0, n0, oc, nc, rs0); } }
         d.equal(common_suffix.0, common_suffix.1, common_suffix_len)?;
         /*@*/ proof { let e = Ev::Equal(common_suffix.0, common_suffix.1, common_suffix_len); post_call(rel, r1, s, e, o0, n0, oc, nc, rs0); assert((t0 + s).push(e) =~= t0 + s.push(e)); s = s.push(e); oc = oc + common_suffix_len; nc = nc + common_suffix_len;
-        /*@*/     assert(cq_inv(*d, d0, t0, s, rel, rs0, o0, n0, oc, nc)); }
+        /*@*/     assert(alg_inv(*d, d0, t0, s, rel, rs0, o0, n0, oc, nc)); }
     }
 
     /*@*/ proof {
-    /*@*/     assert(cq_inv(*d, d0, t0, s, rel, rs0, o0, n0, oc, nc));
+    /*@*/     assert(alg_inv(*d, d0, t0, s, rel, rs0, o0, n0, oc, nc));
     /*@*/     assert(oc == oe0 && nc == ne0);
     /*@*/     assert(t0 + s + Seq::<Ev>::empty() =~= t0 + s);
     /*@*/     assert(seg(old, new, s, o0, n0, oe0, ne0));
